@@ -84,6 +84,16 @@ def gen_lattice(max_bound, two_var_bound):
                                'init': {'A': [10.0 * (i + 1) for i in range(n)], 'B': [0.5 * i for i in range(n)],
                                         'X': [7.0 + i for i in range(n)]},
                                'opts': {'min_iter': 0, 'max_iter': 3, 'tol': 0.5, 'offset': offset, 'failures': 'ignore'}}
+        # passes that rebind the series (whole-series list assignment inside _evaluate) instead of writing in place
+        for max_iter in (1, 2, 3, 4):
+            for seq in itertools.product(range(3), repeat=max_iter):
+                script = {f'1:{k + 1}': [['A', ['rebind', [0.0, 0.5, 1.0][i]]]] for k, i in enumerate(seq)}
+                for min_iter in (0, 2):
+                    if min_iter <= max_iter:
+                        yield {'nvars': 1, 'n': 3, 't': 1, 'script': script,
+                               'opts': {'min_iter': min_iter, 'max_iter': max_iter, 'tol': 0.5, 'failures': 'ignore'}}
+                        yield {'nvars': 2, 'n': 3, 't': -2, 'script': {k: [['B', v[0][1]]] for k, v in script.items()},
+                               'opts': {'min_iter': min_iter, 'max_iter': max_iter, 'tol': 1.0, 'failures': 'raise'}}
         # hooks that raise, min_iter > max_iter with offsets (rejected before anything changes)
         for hook in ({'before': 'KeyError'}, {'after': 'ZeroDivisionError'}, {'before': 'ValueError', 'after': 'KeyError'}):
             for max_iter in (0, 1, 2):
